@@ -258,7 +258,9 @@ class Program:
 
     def variant_index(self, enum, variant):
         if enum == 'Ordering':
-            return {'Less': -1, 'Equal': 0, 'Greater': 1}[variant]
+            if variant in ('Less', 'Equal', 'Greater'):
+                return {'Less': -1, 'Equal': 0, 'Greater': 1}[variant]
+            return {'Relaxed': 0, 'Release': 1, 'Acquire': 2, 'AcqRel': 3, 'SeqCst': 4}.get(variant)
         if enum in self.enums:
             for vs in self.enums[enum]:
                 if variant in vs:
